@@ -47,3 +47,39 @@ fix_div_deleg (mpz_ptr quot, mpz_srcptr dividend, mpz_srcptr divisor)
   mpz_tdiv_qr (quot, rem, dividend, divisor);
   mpz_clear (rem);
 }
+
+/* negative: the zero test is worded on |size|, which cannot be negative */
+void
+fix_div_abs_lt1 (mpz_ptr rem, mpz_srcptr dividend, mpz_srcptr divisor)
+{
+  mp_size_t dn = ABSIZ (divisor);
+  mp_size_t nn = ABSIZ (dividend);
+  if (UNLIKELY (dn < 1))
+    DIVIDE_BY_ZERO;
+  if (nn == 0)
+    {
+      SIZ (rem) = 0;
+      return;
+    }
+  MPZ_REALLOC (rem, 1);
+  PTR (rem)[0] = mpn_mod_1 (PTR (dividend), nn, PTR (divisor)[0]);
+  SIZ (rem) = PTR (rem)[0] != 0;
+}
+
+/* positive: `size < 1` on the signed size is not a zero test (every negative divisor would trap, and the rule must not take it for one) */
+void
+fix_div_signed_lt1 (mpz_ptr rem, mpz_srcptr dividend, mpz_srcptr divisor)
+{
+  mp_size_t dn = SIZ (divisor);
+  mp_size_t nn = ABSIZ (dividend);
+  if (UNLIKELY (dn < 1))
+    DIVIDE_BY_ZERO;
+  if (nn == 0)
+    {
+      SIZ (rem) = 0;
+      return;
+    }
+  MPZ_REALLOC (rem, 1);
+  PTR (rem)[0] = mpn_mod_1 (PTR (dividend), nn, PTR (divisor)[0]);
+  SIZ (rem) = PTR (rem)[0] != 0;
+}
